@@ -21,10 +21,12 @@ PROP = {'gen': ['sixel', 'octree'],
                'predicates (C12_checked_predicates, lemma).',
  'level_note': 'Trusted: Coq kernel + vm_compute; translate/sixel_tables.py (scaling tables and constants re-extracted from the source each '
                'run; scale(pre(x)) validated against the real code for all 256 values); hand-written models validated by the correspondence run; '
-               'rasterize blend_over and the 64-bit content hash are oracles. No axioms.',
+               'rasterize blend_over (bounded within one level against the exact linear-light mix) and the 64-bit content hash are oracles; '
+               'translate/octree_types.py (declared widths, see C13). Restricted to images of height >= 6, width >= 1, at most 2^56 pixels; '
+               'identical bytes on a repeated draw only while cached. No axioms.',
  'technique': 'Coq proof (encoder/interpreter round trip for every hash iteration order) + regenerated tables + model/implementation correspondence',
  'design_ref': 'DESIGN.md 6.12',
- 'n_quick': 140,
+ 'n_quick': 110,
  'n_thorough': 3500,
  'shard': 16,
  'level': 'proof',
@@ -34,13 +36,17 @@ PROP = {'gen': ['sixel', 'octree'],
                   '(Gen/TabSixel.v); the composite scale(pre(x)) is validated against SixelImageHandler::draw for all 256 values of every '
                   'channel, `scale` on values off the reduced grid only through averaged palette entries of > 256-colour images; '
                   'IMAGE_CACHE_SIZE is extracted too',
-                  'hand-written models Image/Sixel.v, Image/SixelDraw.v (encoder) and the C13 models (quantisation), tied to the code by '
-                  'the correspondence run; the reference interpreter is written from the DEC sixel description',
+                  'hand-written models Image/Sixel.v, Image/SixelDraw.v (encoder), Image/SixelCache.v (LRU cache) and the C13 models '
+                  '(quantisation), tied to the code by the correspondence run (cache state observed through the verif-hooks accessor '
+                  'e794f5f); the reference interpreter is written from the DEC sixel description; cropped views are connected to the C07 '
+                  'Shape model by C12_crop_reads_view',
                   'rasterize::RGBA::blend_over (alpha compositing) supplies the composited colour of each transparent pixel; every such value is '
                   'checked against the exact linear-light mix of Image/SrgbSpec.v (IEC 61966-2-1 table, independent of the crates) within '
                   '+-1 level; Surface::hash (cache key) is an oracle',
                   HARNESS],
  'assumptions': ['an image has at most 2^56 pixels (src_ok; the octree accumulators of the regenerated widths then never overflow, see C13)',
                  'the 64-bit FNV content hash used as cache key does not collide between different images drawn on one handler',
-                 'the encoded-image cache stays below its 128 MB eviction threshold',
+                 'C12_repeat_while_cached only: the encoded-image cache stays below its 128 MB eviction threshold (after an eviction identical '
+                 'bytes are not guaranteed: C12_repeat_refuted_after_eviction)',
+                 'C12_exact_upto_2p56px only: <= 256 colours at 0..100 resolution and fewer than 51200 pixels (no sub-sampling)',
                  'io errors of the writer are outside the model']}
